@@ -266,6 +266,9 @@ class Ob:
         self.exc_ok = exc_ok  # an exception escaping the harness is acceptable (not a violation)
 
 
+VIOLATION_GRACE_S = 8
+
+
 def _run_ob(task):
     """worker: explore one obligation (or a set of root prefixes of it)"""
     ob, roots, deviations, canary, seed, solver_timeout_ms, path_cap = task
@@ -289,6 +292,7 @@ def _run_ob(task):
             return fn(ctx, **ob.params)
 
         seen_viol = set()
+        grace = []
         for p in ex.explore(run, roots):
             out["paths"] += 1
             out["outcomes"][p.outcome] = out["outcomes"].get(p.outcome, 0) + 1
@@ -336,6 +340,10 @@ def _run_ob(task):
                     d = out["checks"].setdefault("terminates-within-budget",
                                                  {"discharged": 0, "violated": 0, "unknown": 0})
                     d["discharged"] += 1
+            if out["violations"] and not grace:
+                # a counterexample is in hand: a few more seconds for further labels, then stop this obligation
+                grace.append(1)
+                ex.deadline = min(ex.deadline, time.time() + VIOLATION_GRACE_S)
             if out["sample"] is None and ctx.inputs:
                 try:
                     out["sample"] = {"smt2": ctx.sample_smt, "decisions": [list(x) for x in p.decisions[:12]],
@@ -421,17 +429,26 @@ def run_obligations(obs, deviations_for=None, canary_for=None, seed=0, workers=N
             results[ob.name] = r
         rem = r.pop("remaining", [])
         if rem:
-            if (deadline and time.time() > deadline) or not ob.split:
+            spent = results[ob.name].get("wall_s", 0)
+            if (deadline and time.time() > deadline) or not ob.split or results[ob.name]["violations"] \
+                    or spent > workers * (ob.timeout_s or DEFAULT_OB_TIMEOUT[0]):
+                # no re-distribution after a counterexample, nor beyond the obligation's total budget
                 results[ob.name]["truncated"] = True
             else:
                 n = max(1, min(len(rem), workers * 2))
                 for ch in [rem[i::n] for i in range(n)]:
                     if ch:
-                        queue.append((ob, ch, 400))
+                        queue.insert(0, (ob, ch, 400))   # behind everything not started yet (the queue is popped from its end)
 
     while queue or active:
         while queue and len(active) < workers:
             ob, roots, cap = queue.pop()
+            if deadline and time.time() > deadline:
+                # the check's overall budget is spent: what was not explored is reported as such, never as a pass
+                account(ob, {"name": ob.name, "paths": 0, "checks": {}, "violations": [], "unknown": ["check-deadline"],
+                             "stats": None, "remaining": [], "error": None, "outcomes": {}, "sample": None,
+                             "truncated": True, "wall_s": 0.0, "notes": {}})
+                continue
             task = (ob, roots, deviations_for.get(ob.name, ()), canary_for.get(ob.name), seed, solver_timeout_ms, cap)
             rx, tx = ctxm.Pipe(duplex=False)
             p = ctxm.Process(target=_child, args=(task, tx))
